@@ -97,6 +97,10 @@ type simpleRequest struct {
 	resp       *RespValue
 	hooks      []func(*simpleRequest)
 	done       chan struct{}
+
+	// cpsFiltered is set once the compress filter has handled the request, so
+	// that a request re-sent after MOVED/ASK is not compressed a second time.
+	cpsFiltered bool
 }
 
 func newSimpleRequest(v *RespValue) *simpleRequest {
